@@ -12,6 +12,7 @@ import PdshVerif.Pcp.Merge
 import PdshVerif.Pcp.Recopy
 import PdshVerif.Pcp.FanOut
 import PdshVerif.Pcp.DeepSession
+import PdshVerif.Pcp.Response
 import PdshVerif.Props.C03
 
 /-! # C11  pdcp/rpdcp reproduce the source tree exactly on every target
@@ -113,6 +114,14 @@ write faults (`o.fsize = none`).  Times are in microseconds, the resolution of t
                      -- what K receivers (rpdcp) resp. K client threads (pdcp) of one process share besides the file
                         system / the read-only file list: the static objects and the process-wide calls of pcp_server.c and
                         pcp_client.c, compared with the translation units on every run (pcp_client.c defines NONE).
+* Pcp/Response.lean `readAll_wire`, `response_wire`, `response_wire_long`
+                     -- the client's reply reader at the BYTE level (`pcp_response` + `fd_read_line` with `char
+                        errstr[BUFSIZ]`): reading reply after reply from the bytes the receiver wrote (NUL / `\01`+text+
+                        newline) yields exactly the records sent, in order, as long as every error text fits the buffer --
+                        the premise under which `Sess.read` (Pcp/Session.lean) may treat the replies as a list; a text that
+                        does not fit is cut and its tail stays in the stream (`response_wire_long`; seeded change C11-13).
+                        Hypothesis, not proved: the receiver's error texts are shorter than BUFSIZ - 2 (they carry the target
+                        path: < PATH_MAX + NAME_MAX + the strerror text for a sender that sends names of existing files).
 
 Modelled, not proved: the threads of the real rpdcp receiver are represented by sequential
 processing in an arbitrary order (assumption: the kernel serialises operations per path, and the
